@@ -380,6 +380,43 @@ func c05RandCase(rng interface{ Intn(int) int }, s string) string {
 	return string(b)
 }
 
+// Long inputs for the rejection clause.
+var c05LongLens = []int{65537, 70000, 98303, 100001}
+
+func c05LongLensText() string {
+	var parts []string
+	for _, n := range c05LongLens {
+		parts = append(parts, strconv.Itoa(n))
+	}
+	return strings.Join(parts, ", ")
+}
+
+// c05LongBody: a fixed pseudo-random string of n letters over alpha (a plain
+// linear congruential generator, so the domain is the same on every run).
+func c05LongBody(alpha string, n int, seed uint32) string {
+	b := make([]byte, n)
+	x := seed*2654435761 + 12345
+	for i := range b {
+		x = x*1664525 + 1013904223
+		b[i] = alpha[int(x>>16)%len(alpha)]
+	}
+	return string(b)
+}
+
+func c05LongPositions(n int) []int {
+	tail := (n - 1) / 32768 * 32768 // last multiple of 32768 below n
+	cand := []int{0, 1, 4095, 4096, 32767, 32768, 65535, 65536, n / 2, tail - 1, tail, tail + 1, n - 2, n - 1}
+	seen := map[int]bool{}
+	var out []int
+	for _, p := range cand {
+		if p >= 0 && p < n && !seen[p] {
+			seen[p] = true
+			out = append(out, p)
+		}
+	}
+	return out
+}
+
 func TestVerifC05(t *testing.T) {
 	const accepted17 = "ATUGCYRSWKMBDHVNZ"         // letters the seqhash description allows for DNA/RNA
 	const protein26 = "ACDEFGHIKLMNPQRSTVWYUO*BXZ" // and for proteins
@@ -502,9 +539,13 @@ func TestVerifC05(t *testing.T) {
 
 	// ---- rejects ----
 	v := newVerifRun("C05", "seqhash.Hash/post/rejects",
-		"unknown molecule types (26 spellings near DNA/RNA/PROTEIN) with valid sequences; every single letter outside the type's alphabet (DNA/RNA: ATUGCYRSWKMBDHVNZ, protein: ACDEFGHIKLMNPQRSTVWYUO*BXZ, either case): all 128 ASCII characters, all 128 bytes >= 0x80 (not UTF-8) and 14 non-ASCII characters, each alone, first, last and in the middle of an otherwise valid sequence, four flag combinations; every protein string to length "+it(lProt)+" declared double-stranded; expectation: error. Conversely every protein string to length "+it(lProt)+" single-stranded, and every string over the 15 IUPAC codes (plus U under RNA) to length "+it(lAcc)+", must be accepted (checked in the runs above and here); non-trivial = every case")
+		"unknown molecule types (26 spellings near DNA/RNA/PROTEIN) with valid sequences; every single letter outside the type's alphabet (DNA/RNA: ATUGCYRSWKMBDHVNZ, protein: ACDEFGHIKLMNPQRSTVWYUO*BXZ, either case): all 128 ASCII characters, all 128 bytes >= 0x80 (not UTF-8) and 14 non-ASCII characters, each alone, first, last and in the middle of an otherwise valid sequence, four flag combinations; long sequences: lengths "+c05LongLensText()+" (none a multiple of 4096) over ACGT / ACGU / the 26 protein letters in mixed case (fixed pseudo-random body) with exactly ONE letter outside the alphabet (J or !) at position 0, 1, 4095, 4096, 32767, 32768, 65535, 65536, n/2, the last multiple of 32768 below n and its neighbours, n-2 and n-1 (the last letter), each under one of the four flag combinations in rotation (all four occur for every type); every protein string to length "+it(lProt)+" declared double-stranded; expectation: error. Conversely every protein string to length "+it(lProt)+" single-stranded, and every string over the 15 IUPAC codes (plus U under RNA) to length "+it(lAcc)+", must be accepted (checked in the runs above and here); non-trivial = every case")
 	expectErr := func(class string, in c05In, why string) {
-		v.Case(in.String(), true)
+		key := in.String()
+		if len(in.s) > 80 {
+			key += " [" + why + "]" // the clipped sequence does not identify a long case
+		}
+		v.Case(key, true)
 		var err error
 		var h string
 		if !v.Guard("panic", in.String(), func() { h, err = Hash(in.s, in.typ, in.circ, in.ds) }) {
@@ -539,6 +580,32 @@ func TestVerifC05(t *testing.T) {
 			for _, s := range []string{l, l + ctx, ctx + l, ctx[:2] + l + ctx[2:]} {
 				for _, cd := range combos {
 					expectErr("letter-outside-alphabet-accepted", c05In{s, typ, cd[0], cd[1]}, "letter "+strconv.QuoteToASCII(l)+" is outside the "+typ+" alphabet")
+				}
+			}
+		}
+	}
+	// long sequences with one letter outside the alphabet
+	{
+		k := 0
+		for _, typ := range []string{"DNA", "RNA", "PROTEIN"} {
+			alpha := "ACGTacgt"
+			if typ == "RNA" {
+				alpha = "ACGUacgu"
+			} else if typ == "PROTEIN" {
+				alpha = protein26 + strings.ToLower(protein26)
+			}
+			for li, n := range c05LongLens {
+				body := c05LongBody(alpha, n, uint32(li+1))
+				bad := "J!"[li%2 : li%2+1]
+				for _, pos := range c05LongPositions(n) {
+					cd := combos[k%4]
+					if typ == "PROTEIN" {
+						cd = [2]bool{k%2 == 1, false}
+					}
+					k++
+					s := body[:pos] + bad + body[pos+1:]
+					expectErr("letter-outside-alphabet-in-long-sequence-accepted", c05In{s, typ, cd[0], cd[1]},
+						"letter "+strconv.Quote(bad)+" at position "+it(pos)+" of "+it(n)+" is outside the "+typ+" alphabet")
 				}
 			}
 		}
